@@ -74,6 +74,13 @@ pub enum Op { Next(int), Flush, Report }
 pub trait Entry { spec fn id(&self) -> int; }
 pub struct ValidationError { pub v: u8 }
 pub struct IoError { pub v: u8 }
+#[derive(Structural, Clone, Copy, PartialEq, Eq)]
+pub enum ErrorKind { Interrupted, WriteZero, WouldBlock, BrokenPipe, Other }
+impl IoError {
+    #[verifier::external_body]
+    pub fn kind(&self) -> ErrorKind { unimplemented!() }
+}
+pub mod io { pub use super::ErrorKind; pub type Error = super::IoError; }
 pub enum IoStreamError { Validation(ValidationError), Io(IoError) }
 
 pub trait EntryIoStream {
